@@ -5,7 +5,7 @@ package main
 // It turns the *decision functions* of the controller (annotation / condition readers, the
 // promotion rule, defaulting, validation, the deletion rule of replica sets, the slow-start
 // arithmetic) into Lean definitions over the model's own record types
-// (EdsModel/Generated/Decisions.lean).  EdsProofs/DecisionsBridge.lean then proves each generated
+// (EdsModel/Generated/Dec<Group>.lean).  EdsProofs/Bridge<Group>.lean then proves each generated
 // definition equal to the hand-written model function the property theorems are stated about, so a
 // change to one of these Go functions breaks a proof obligation directly.
 //
@@ -18,7 +18,15 @@ package main
 //     through a tuple of the variables it assigns, or through a local continuation when the body
 //     both returns and falls through;
 //   * assignments through a pointer (`c.X = v`, `Default…(c.Sub)`) rebuild the pointee
-//     (`some { c_ with x := v }`).
+//     (`some { c_ with x := v }`); `xs[i].F = v` rebuilds the list (Go.setIndex) and assigns it back;
+//   * `for i, x := range xs { … }` becomes an auxiliary definition recursing over the list, with the
+//     variables the body assigns as accumulator arguments, the statements after the loop as a
+//     continuation, early `return` = `some r`, `continue` / falling off the body = the recursive call,
+//     `break` = the continuation (see rangeStmt); `switch tag {…}` is an if-chain;
+//   * a function without results whose first parameter is a pointer returns that pointer (what the
+//     caller sees through it afterwards);
+//   * what the model's values do not carry is a synthetic, universally quantified parameter:
+//     pointer identity (`samePtr`), nil-ness of an empty slice (`nilSlice`), each `time.Now()` (`wallNowN`).
 // Anything outside the subset makes the translator fail loudly (the tie is then reported broken).
 
 import (
@@ -140,6 +148,43 @@ func initTables() {
 		"Ready", "ready", tInt(), "Available", "available", tInt(),
 		"IgnoredUnresponsiveNodes", "ignored", tInt(), "Conditions", "conds", tList(tStruct("Cond")))
 	defStruct("ERS", "Name", "name", tStr(), "CreationTimestamp", "creation", tTime(), "Status", "status", tStruct("ERSStatus"))
+	// group Conds: the ExtendedDaemonSet status, the options of the condition update, and the pod as
+	// far as pkg/controller/utils/pod reads it (EdsModel/GoPrelude.lean)
+	defStruct("CanaryStatus", "ReplicaSet", "replicaSet", tStr(), "Nodes", "nodes", tList(tStr()))
+	defStruct("EDSStatus", "Desired", "desired", tInt(), "Current", "current", tInt(), "Ready", "ready", tInt(),
+		"Available", "available", tInt(), "UpToDate", "upToDate", tInt(), "IgnoredUnresponsiveNodes", "ignored", tInt(),
+		"State", "state", tStr(), "ActiveReplicaSet", "activeReplicaSet", tStr(), "Reason", "reason", tStr(),
+		"Canary", "canary", tPtr(tStruct("CanaryStatus")), "Conditions", "conds", tList(tStruct("Cond")))
+	structs["GEds"].order = append(structs["GEds"].order, "Status")
+	structs["GEds"].fields["Status"] = field{"status", tStruct("EDSStatus")}
+	defStruct("GUpdateConditionOptions", "IgnoreFalseConditionIfNotExist", "ignoreFalseConditionIfNotExist", tBool(),
+		"SupportLastUpdate", "supportLastUpdate", tBool())
+	defStruct("GWaiting", "Reason", "reason", tStr(), "Message", "message", tStr())
+	defStruct("GRunning", "StartedAt", "startedAt", tTime())
+	defStruct("GTerminated", "ExitCode", "exitCode", tInt(), "Signal", "signal", tInt(), "Reason", "reason", tStr(),
+		"Message", "message", tStr(), "StartedAt", "startedAt", tTime(), "FinishedAt", "finishedAt", tTime(),
+		"ContainerID", "containerID", tStr())
+	defStruct("GContainerState", "Waiting", "waiting", tPtr(tStruct("GWaiting")), "Running", "running", tPtr(tStruct("GRunning")),
+		"Terminated", "terminated", tPtr(tStruct("GTerminated")))
+	defStruct("GContainerStatus", "Name", "name", tStr(), "State", "state", tStruct("GContainerState"),
+		"LastTerminationState", "lastTerminationState", tStruct("GContainerState"), "RestartCount", "restartCount", tInt())
+	defStruct("GPodCondition", "Type", "type", tStr(), "Status", "status", tStr(), "LastProbeTime", "lastProbeTime", tTime(),
+		"LastTransitionTime", "lastTransitionTime", tTime(), "Reason", "reason", tStr(), "Message", "message", tStr())
+	defStruct("GPodStatus", "Phase", "phase", tStr(), "Conditions", "conditions", tList(tStruct("GPodCondition")),
+		"Reason", "reason", tStr(), "StartTime", "startTime", tPtr(tTime()),
+		"InitContainerStatuses", "initContainerStatuses", tList(tStruct("GContainerStatus")),
+		"ContainerStatuses", "containerStatuses", tList(tStruct("GContainerStatus")),
+		"EphemeralContainerStatuses", "ephemeralContainerStatuses", tList(tStruct("GContainerStatus")))
+	defStruct("Req", "Key", "key", tStr(), "Operator", "op", tStr(), "Values", "values", tList(tStr()))
+	defStruct("Term", "MatchExpressions", "exprs", tList(tStruct("Req")), "MatchFields", "fields", tList(tStruct("Req")))
+	defStruct("GNodeSelector", "NodeSelectorTerms", "nodeSelectorTerms", tList(tStruct("Term")))
+	defStruct("GNodeAffinity", "RequiredDuringSchedulingIgnoredDuringExecution", "required", tPtr(tStruct("GNodeSelector")))
+	defStruct("GAffinity", "NodeAffinity", "nodeAffinity", tPtr(tStruct("GNodeAffinity")))
+	defStruct("GPodSpec", "NodeName", "nodeName", tStr(), "Affinity", "affinity", tPtr(tStruct("GAffinity")))
+	defStruct("GPod", "Name", "name", tStr(), "Namespace", "ns", tStr(), "CreationTimestamp", "creationTimestamp", tTime(),
+		"DeletionTimestamp", "deletionTimestamp", tPtr(tTime()),
+		"DeletionGracePeriodSeconds", "deletionGracePeriodSeconds", tPtr(tInt()),
+		"Spec", "spec", tStruct("GPodSpec"), "Status", "status", tStruct("GPodStatus"))
 
 	namedTypes = map[string]Ty{
 		"ExtendedDaemonSet":                                 tStruct("GEds"),
@@ -157,6 +202,24 @@ func initTables() {
 		"ExtendedDaemonSetStatusState":                      tStr(),
 		"LabelSelector":                                     tStruct("LabelSelector"),
 		"IntOrString":                                       ios,
+		"ExtendedDaemonSetStatus":                           tStruct("EDSStatus"),
+		"ExtendedDaemonSetStatusCanary":                     tStruct("CanaryStatus"),
+		"ExtendedDaemonSetCondition":                        tStruct("Cond"),
+		"ExtendedDaemonSetConditionType":                    tStr(),
+		"ExtendedDaemonSetReplicaSetConditionType":          tStr(),
+		"ConditionStatus":                                   tStr(),
+		"UpdateConditionOptions":                            tStruct("GUpdateConditionOptions"),
+		"ReplicaSetStatus":                                  tStr(),
+		"Affinity":                                          tStruct("GAffinity"),
+		"Pod":                                               tStruct("GPod"),
+		"PodStatus":                                         tStruct("GPodStatus"),
+		"PodCondition":                                      tStruct("GPodCondition"),
+		"PodConditionType":                                  tStr(),
+		"ContainerStatus":                                   tStruct("GContainerStatus"),
+		"ContainerState":                                    tStruct("GContainerState"),
+		"ContainerStateTerminated":                          tStruct("GTerminated"),
+		"ContainerStateWaiting":                             tStruct("GWaiting"),
+		"ContainerStateRunning":                             tStruct("GRunning"),
 	}
 }
 
@@ -176,6 +239,13 @@ type fnInfo struct {
 	results []Ty
 	// the function returns its first (pointer) parameter after mutating the pointee
 	mutator bool
+	// no Go result: translated as returning its first (pointer) parameter, i.e. what the caller
+	// observes through that pointer after the call
+	void bool
+	// has the synthetic `nilSlice : Bool` parameter (see `sliceIsNil`)
+	needsNil bool
+	// number of synthetic wall-clock parameters
+	nowN int
 }
 
 type bind struct{ v, m string }
@@ -200,6 +270,39 @@ type tr struct {
 	alias []map[string]string
 	fresh int
 	used  map[string]int
+	// range loops: the auxiliary recursive definitions generated for the current function, and the
+	// stack of enclosing loops (what `continue` / `break` mean)
+	aux   []string
+	loopN int
+	loops []loopCtx
+	// package-level `map[string]struct{}` literals (string sets) of the translated files
+	sets map[string][]string
+	// set while a function is translated: it needs the synthetic `nilSlice` parameter
+	needsNil bool
+	// number of `time.Now()` calls met in the current function (synthetic parameters wallNow1 …)
+	nowN int
+}
+
+type loopCtx struct{ cont, brk func() string }
+
+// fn resolves a callee: functions of the caller's own package first (both `conditions` packages
+// define IsConditionTrue, UpdateErrorCondition, …), then a unique function of that name.
+func (t *tr) fn(base string, qualified bool) (*fnInfo, bool) {
+	if t.cur != nil && !qualified {
+		if fi, ok := t.fns[filepath.Dir(t.cur.spec.file)+":"+base]; ok {
+			return fi, true
+		}
+	}
+	var found *fnInfo
+	for _, fi := range t.fns {
+		if fi.spec.goName == base {
+			if found != nil {
+				dieT("gotolean: ambiguous callee %s", base)
+			}
+			found = fi
+		}
+	}
+	return found, found != nil
 }
 
 func (t *tr) push() {
@@ -277,6 +380,10 @@ func (t *tr) goType(e ast.Expr) Ty {
 		}
 	case *ast.MapType:
 		return Ty{K: "smap"}
+	case *ast.ArrayType:
+		if x.Len == nil {
+			return tList(t.goType(x.Elt))
+		}
 	}
 	dieT("gotolean: unsupported type at %s", pos(e))
 	return Ty{}
@@ -365,13 +472,16 @@ func (t *tr) sel(v val, name string, n ast.Node) val {
 	return val{}
 }
 
-func isPkg(e ast.Expr) (string, bool) {
+func (t *tr) isPkg(e ast.Expr) (string, bool) {
 	id, ok := e.(*ast.Ident)
 	if !ok {
 		return "", false
 	}
+	if _, isLocal := t.lookup(id.Name); isLocal {
+		return "", false // a local variable shadows the package name (`affinity *v1.Affinity`)
+	}
 	switch id.Name {
-	case "time", "metav1", "datadoghqv1alpha1", "intstr", "intstrutil", "conditions", "ersconditions", "corev1", "v1alpha1":
+	case "time", "metav1", "datadoghqv1alpha1", "intstr", "intstrutil", "conditions", "ersconditions", "corev1", "v1alpha1", "v1", "strategy", "affinity":
 		return id.Name, true
 	}
 	return "", false
@@ -387,6 +497,14 @@ func (t *tr) constant(name string, n ast.Node) val {
 		return pure("\"True\"", tStr())
 	case "corev1.ConditionFalse":
 		return pure("\"False\"", tStr())
+	case "v1.ConditionTrue":
+		return pure("\"True\"", tStr())
+	case "v1.ConditionFalse":
+		return pure("\"False\"", tStr())
+	case "v1.PodReady":
+		return pure("\"Ready\"", tStr())
+	case "v1.PodFailed":
+		return pure("\"Failed\"", tStr())
 	}
 	if i := strings.Index(name, "."); i >= 0 {
 		name = name[i+1:]
@@ -433,7 +551,7 @@ func (t *tr) ex(e ast.Expr) val {
 		}
 		return t.constant(x.Name, x)
 	case *ast.SelectorExpr:
-		if p, ok := isPkg(x.X); ok {
+		if p, ok := t.isPkg(x.X); ok {
 			return t.constant(p+"."+x.Sel.Name, x)
 		}
 		return t.sel(t.ex(x.X), x.Sel.Name, x)
@@ -509,6 +627,15 @@ func (t *tr) binary(x *ast.BinaryExpr) val {
 			if a.ty.K == "nil" {
 				p = b
 			}
+			if p.ty.K == "list" {
+				// the model's lists do not distinguish a nil slice from an empty one: the synthetic
+				// Boolean parameter `nilSlice` of the function says which one an empty list stands for
+				t.needsNil = true
+				if neg {
+					return val{binds: bs, term: "(!(Go.sliceIsNil nilSlice " + p.term + "))", ty: tBool()}
+				}
+				return val{binds: bs, term: "(Go.sliceIsNil nilSlice " + p.term + ")", ty: tBool()}
+			}
 			if p.ty.K != "ptr" {
 				dieT("gotolean: nil compared with a non-pointer at %s", pos(x))
 			}
@@ -518,6 +645,13 @@ func (t *tr) binary(x *ast.BinaryExpr) val {
 			return val{binds: bs, term: "(" + p.term + ").isNone", ty: tBool()}
 		}
 		if a.ty.K == "ptr" && b.ty.K == "ptr" {
+			if freshAlloc(x.X) || freshAlloc(x.Y) {
+				// the address of a composite literal is a new object: equal to no other pointer
+				if neg {
+					return val{binds: bs, term: "true", ty: tBool()}
+				}
+				return val{binds: bs, term: "false", ty: tBool()}
+			}
 			if t.cur.spec.ptrEq == "" {
 				dieT("gotolean: pointer comparison at %s", pos(x))
 			}
@@ -525,6 +659,16 @@ func (t *tr) binary(x *ast.BinaryExpr) val {
 				return val{binds: bs, term: "(!" + t.cur.spec.ptrEq + ")", ty: tBool()}
 			}
 			return val{binds: bs, term: t.cur.spec.ptrEq, ty: tBool()}
+		}
+		if a.ty.K == "struct" || b.ty.K == "struct" {
+			// Go compares pointer fields by identity, the model's `Option` by value: only the comparison
+			// with a zero value (all pointer fields nil) means the same on both sides
+			if !zeroLit(x.X) && !zeroLit(x.Y) {
+				dieT("gotolean: comparison of structs other than with a zero value at %s", pos(x))
+			}
+		}
+		if a.ty.K == "list" || b.ty.K == "list" || a.ty.K == "smap" || b.ty.K == "smap" {
+			dieT("gotolean: comparison of slices / maps at %s", pos(x))
 		}
 		if neg {
 			return val{binds: bs, term: "(" + a.term + " != " + b.term + ")", ty: tBool()}
@@ -546,6 +690,32 @@ func (t *tr) binary(x *ast.BinaryExpr) val {
 	}
 	dieT("gotolean: unsupported operator at %s", pos(x))
 	return val{}
+}
+
+func unparen(e ast.Expr) ast.Expr {
+	for {
+		p, ok := e.(*ast.ParenExpr)
+		if !ok {
+			return e
+		}
+		e = p.X
+	}
+}
+
+// freshAlloc: `&T{…}`
+func freshAlloc(e ast.Expr) bool {
+	u, ok := unparen(e).(*ast.UnaryExpr)
+	if !ok || u.Op != token.AND {
+		return false
+	}
+	_, ok = unparen(u.X).(*ast.CompositeLit)
+	return ok
+}
+
+// zeroLit: `T{}`
+func zeroLit(e ast.Expr) bool {
+	c, ok := unparen(e).(*ast.CompositeLit)
+	return ok && len(c.Elts) == 0
 }
 
 func (t *tr) composite(x *ast.CompositeLit) val {
@@ -605,11 +775,14 @@ func (t *tr) call(x *ast.CallExpr) val {
 	case *ast.Ident:
 		name = f.Name
 	case *ast.SelectorExpr:
-		if p, ok := isPkg(f.X); ok {
+		if p, ok := t.isPkg(f.X); ok {
 			name = p + "." + f.Sel.Name
 		} else {
 			// method call
 			recv := t.ex(f.X)
+			if recv.ty.K == "ptr" && recv.ty.E.K == "time" {
+				recv = t.deref(recv, x) // (*metav1.Time).Add / Before / …: the receiver is dereferenced first
+			}
 			vs, bs := args()
 			bs = append(append([]bind{}, recv.binds...), bs...)
 			m := f.Sel.Name
@@ -644,11 +817,32 @@ func (t *tr) call(x *ast.CallExpr) val {
 		v := t.ex(x.Args[0])
 		return val{binds: v.binds, term: v.term, ty: ty}
 	}
-	if name == "int" || name == "int32" {
+	if name == "int" || name == "int32" || name == "int64" || name == "string" || name == "time.Duration" {
 		return t.ex(x.Args[0])
 	}
+	if name == "append" {
+		vs, bs := args()
+		if len(vs) < 2 || vs[0].ty.K != "list" {
+			dieT("gotolean: unsupported append at %s", pos(x))
+		}
+		if x.Ellipsis.IsValid() {
+			return val{binds: bs, term: "(" + vs[0].term + " ++ " + vs[1].term + ")", ty: vs[0].ty}
+		}
+		var es []string
+		for _, v := range vs[1:] {
+			es = append(es, v.term)
+		}
+		return val{binds: bs, term: "(" + vs[0].term + " ++ [" + strings.Join(es, ", ") + "])", ty: vs[0].ty}
+	}
+	if name == "len" {
+		vs, bs := args()
+		if vs[0].ty.K != "list" {
+			dieT("gotolean: len of a non-slice at %s", pos(x))
+		}
+		return val{binds: bs, term: "(Int.ofNat (List.length " + vs[0].term + "))", ty: tInt()}
+	}
 	// translated functions
-	if fi, ok := t.fns[base]; ok {
+	if fi, ok := t.fn(base, base != name); ok {
 		vs, bs := args()
 		var as []string
 		for i, v := range vs {
@@ -662,12 +856,25 @@ func (t *tr) call(x *ast.CallExpr) val {
 		if fi.spec.ptrEq != "" {
 			dieT("gotolean: call of a function with a pointer-identity parameter at %s", pos(x))
 		}
+		if fi.nowN > 0 {
+			dieT("gotolean: call of a function that reads the wall clock at %s", pos(x))
+		}
+		if fi.needsNil {
+			// the nil-ness of an empty slice is not represented: the caller's own parameter stands for it
+			t.needsNil = true
+			as = append(as, "nilSlice")
+		}
 		r := t.tmp("r")
 		bs = append(bs, bind{r, "(" + fi.spec.leanName + " " + strings.Join(as, " ") + ")"})
 		if len(fi.results) == 1 {
 			return val{binds: bs, term: r, ty: fi.results[0]}
 		}
 		return val{binds: bs, term: r, ty: Ty{K: "tuple"}}
+	}
+	if name == "time.Now" {
+		// the wall clock: every call is a parameter of the translated function, in source order
+		t.nowN++
+		return val{term: fmt.Sprintf("wallNow%d", t.nowN), ty: tTime()}
 	}
 	vs, bs := args()
 	switch name {
@@ -700,17 +907,37 @@ func (t *tr) call(x *ast.CallExpr) val {
 // ---------------------------------------------------------------------------------------------
 // statements
 
+// hasReturn: the statement can leave the enclosing statement list other than by falling through
+// (`return`, or a `continue` / `break` of the enclosing loop).
 func hasReturn(n ast.Node) bool {
 	found := false
-	ast.Inspect(n, func(m ast.Node) bool {
-		if _, ok := m.(*ast.ReturnStmt); ok {
-			found = true
-		}
-		if _, ok := m.(*ast.FuncLit); ok {
-			return false
-		}
-		return true
-	})
+	var walk func(n ast.Node, inLoop bool)
+	walk = func(n ast.Node, inLoop bool) {
+		ast.Inspect(n, func(m ast.Node) bool {
+			switch y := m.(type) {
+			case *ast.ReturnStmt:
+				found = true
+			case *ast.BranchStmt:
+				if !inLoop {
+					found = true
+				}
+			case *ast.RangeStmt:
+				if m != n {
+					walk(y.Body, true) // its continue / break are its own
+					return false
+				}
+			case *ast.ForStmt:
+				if m != n {
+					walk(y.Body, true)
+					return false
+				}
+			case *ast.FuncLit:
+				return false
+			}
+			return true
+		})
+	}
+	walk(n, false)
 	return found
 }
 
@@ -721,6 +948,8 @@ func alwaysReturns(list []ast.Stmt) bool {
 	switch s := list[len(list)-1].(type) {
 	case *ast.ReturnStmt:
 		return true
+	case *ast.BranchStmt:
+		return s.Tok == token.CONTINUE || s.Tok == token.BREAK
 	case *ast.IfStmt:
 		if s.Else == nil {
 			return false
@@ -746,6 +975,8 @@ func (t *tr) assigned(list []ast.Stmt) []string {
 			case *ast.StarExpr:
 				e = x.X
 			case *ast.ParenExpr:
+				e = x.X
+			case *ast.IndexExpr:
 				e = x.X
 			case *ast.Ident:
 				return x.Name
@@ -807,34 +1038,85 @@ func (t *tr) isMutatorCall(c *ast.CallExpr) bool {
 	case *ast.SelectorExpr:
 		name = f.Sel.Name
 	}
-	fi, ok := t.fns[name]
+	fi, ok := t.fn(name, false)
 	return ok && fi.mutator
 }
 
-func (t *tr) tuple(names []string) (string, string) {
-	if len(names) == 0 {
-		return "()", "(_ : Unit)"
-	}
-	var ls, ps []string
+// a slot is one variable joined after a conditional or carried through a loop.  A pointer variable
+// whose pointee already has a name is joined through that name (the pointee); a pointer variable
+// that has not been dereferenced yet is joined as the pointer itself (`Option T`): a branch that
+// assigned through it yields `some <its pointee>`.
+type slot struct {
+	goName   string
+	lean     string
+	ty       Ty
+	viaAlias bool
+}
+
+func (t *tr) slots(names []string) []slot {
+	var out []slot
 	for _, n := range names {
 		f, _ := t.lookup(n)
 		if f.ty.K == "ptr" {
-			// assigned through the pointer: the joined value is the pointee
-			a := t.aliasOf(n)
-			if a == "" {
-				dieT("gotolean: %s is assigned through before it is dereferenced", n)
+			if a := t.aliasOf(n); a != "" {
+				out = append(out, slot{n, a, *f.ty.E, true})
+				continue
 			}
-			ls = append(ls, a)
-			ps = append(ps, "("+a+" : "+f.ty.E.lean()+")")
-			continue
 		}
-		ls = append(ls, f.lean)
-		ps = append(ps, "("+f.lean+" : "+f.ty.lean()+")")
+		out = append(out, slot{n, f.lean, f.ty, false})
+	}
+	return out
+}
+
+// the joined variables as a pattern and as a parameter list
+func slotPattern(ss []slot) (string, string) {
+	if len(ss) == 0 {
+		return "()", "(_ : Unit)"
+	}
+	var ls, ps []string
+	for _, sl := range ss {
+		ls = append(ls, sl.lean)
+		ps = append(ps, "("+sl.lean+" : "+sl.ty.lean()+")")
 	}
 	if len(ls) == 1 {
 		return ls[0], ps[0]
 	}
 	return "(" + strings.Join(ls, ", ") + ")", strings.Join(ps, " ")
+}
+
+// the current values of the joined variables (evaluated where control reaches the join)
+func (t *tr) slotValues(ss []slot) []string {
+	var out []string
+	for _, sl := range ss {
+		if sl.ty.K == "ptr" && !sl.viaAlias {
+			if a := t.aliasOf(sl.goName); a != "" {
+				out = append(out, "(some "+a+")")
+				continue
+			}
+		}
+		out = append(out, sl.lean)
+	}
+	return out
+}
+
+func (t *tr) slotTuple(ss []slot) string {
+	vs := t.slotValues(ss)
+	switch len(vs) {
+	case 0:
+		return "()"
+	case 1:
+		return vs[0]
+	}
+	return "(" + strings.Join(vs, ", ") + ")"
+}
+
+// after a join the pointee names of the joined pointer variables are no longer valid
+func (t *tr) slotsJoined(ss []slot) {
+	for _, sl := range ss {
+		if sl.ty.K == "ptr" && !sl.viaAlias {
+			t.alias[len(t.alias)-1][sl.goName] = ""
+		}
+	}
 }
 
 // assignPath emits the rebuild of the local variable at the root of `lhs` with the value `v`, then
@@ -882,6 +1164,15 @@ func (t *tr) assignPath(lhs ast.Expr, v string, rest func() string) string {
 			}
 			return wrap(base.binds, t.assignPath(x.X, "{ "+base.term+" with "+f.lean+" := "+v+" }", rest))
 		}
+	case *ast.IndexExpr:
+		// l[i] = v: rebuild the list (`none` = index out of range), then assign it to l
+		l, i := t.ex(x.X), t.ex(x.Index)
+		if l.ty.K != "list" {
+			dieT("gotolean: indexed assignment to a non-slice at %s", pos(lhs))
+		}
+		bs := append(append([]bind{}, l.binds...), i.binds...)
+		nl := t.tmp("l")
+		return wrap(bs, "Option.bind (Go.setIndex "+l.term+" "+i.term+" "+v+") fun "+nl+" =>\n"+t.assignPath(x.X, nl, rest))
 	}
 	dieT("gotolean: unsupported assignment target at %s", pos(lhs))
 	return ""
@@ -897,6 +1188,17 @@ func (t *tr) block(list []ast.Stmt, fall func() string) string {
 	case *ast.ReturnStmt:
 		var bs []bind
 		var ts []string
+		if len(s.Results) == 0 {
+			return t.retVoid(s)
+		}
+		if len(s.Results) == 1 && len(t.cur.results) > 1 {
+			// return f(…) of a function with several results
+			v := t.ex(s.Results[0])
+			if v.ty.K != "tuple" {
+				dieT("gotolean: unsupported return at %s", pos(s))
+			}
+			return wrap(v.binds, "some "+v.term)
+		}
 		for i, r := range s.Results {
 			v := t.ex(r)
 			bs = append(bs, v.binds...)
@@ -946,9 +1248,296 @@ func (t *tr) block(list []ast.Stmt, fall func() string) string {
 		return wrap(v.binds, t.assignPath(target, v.term, rest))
 	case *ast.IfStmt:
 		return t.ifStmt(s, rest)
+	case *ast.RangeStmt:
+		return t.rangeStmt(s, rest)
+	case *ast.SwitchStmt:
+		return t.switchStmt(s, rest)
+	case *ast.BranchStmt:
+		if len(t.loops) == 0 || s.Label != nil {
+			dieT("gotolean: unsupported branch statement at %s", pos(s))
+		}
+		switch s.Tok {
+		case token.CONTINUE:
+			return t.loops[len(t.loops)-1].cont()
+		case token.BREAK:
+			return t.loops[len(t.loops)-1].brk()
+		}
 	}
 	dieT("gotolean: unsupported statement at %s", pos(list[0]))
 	return ""
+}
+
+// retVoid: the end of a function without Go results — it yields its first parameter (see fnInfo.void).
+func (t *tr) retVoid(n ast.Node) string {
+	if !t.cur.void {
+		dieT("gotolean: return without a value at %s", pos(n))
+	}
+	v := t.ex(t.cur.decl.Type.Params.List[0].Names[0])
+	return wrap(v.binds, "some "+v.term)
+}
+
+// switchStmt: `switch tag { case a, b: …; default: … }` without fallthrough is the chain
+// `if tag == a || tag == b { … } else if … else { … }` with the tag evaluated once.
+func (t *tr) switchStmt(s *ast.SwitchStmt, rest func() string) string {
+	if s.Init != nil || s.Tag == nil {
+		dieT("gotolean: unsupported switch at %s", pos(s))
+	}
+	tag := t.ex(s.Tag)
+	tn := t.tmp("tag")
+	t.push()
+	defer t.pop()
+	t.env[len(t.env)-1]["\x00"+tn] = field{tn, tag.ty}
+	tagId := &ast.Ident{Name: "\x00" + tn, NamePos: s.Tag.Pos()}
+	var chain, last *ast.IfStmt
+	var deflt *ast.BlockStmt
+	for _, cc := range s.Body.List {
+		c := cc.(*ast.CaseClause)
+		for _, st := range c.Body {
+			if b, ok := st.(*ast.BranchStmt); ok && (b.Tok == token.FALLTHROUGH || b.Tok == token.BREAK) {
+				dieT("gotolean: fallthrough / break in a switch at %s", pos(b))
+			}
+		}
+		body := &ast.BlockStmt{Lbrace: c.Colon, List: c.Body}
+		if c.List == nil {
+			deflt = body
+			continue
+		}
+		var cond ast.Expr
+		for _, e := range c.List {
+			eq := &ast.BinaryExpr{X: tagId, OpPos: e.Pos(), Op: token.EQL, Y: e}
+			if cond == nil {
+				cond = eq
+			} else {
+				cond = &ast.BinaryExpr{X: cond, OpPos: e.Pos(), Op: token.LOR, Y: eq}
+			}
+		}
+		is := &ast.IfStmt{If: c.Case, Cond: cond, Body: body}
+		if chain == nil {
+			chain = is
+		} else {
+			last.Else = is
+		}
+		last = is
+	}
+	var out string
+	switch {
+	case chain == nil && deflt == nil:
+		out = rest()
+	case chain == nil:
+		out = t.block(deflt.List, rest)
+	default:
+		if deflt != nil {
+			last.Else = deflt
+		}
+		out = t.block([]ast.Stmt{chain}, rest)
+	}
+	return wrap(tag.binds, "let "+tn+" : "+tag.ty.lean()+" := "+tag.term+"\n"+out)
+}
+
+// rangeStmt: `for i, x := range xs { body }` becomes a call of an auxiliary definition that recurses
+// over the list:
+//
+//	def f.loopN (captured…) (k_ : A… → Option R) : List α → Int → A… → Option R
+//	  | [], _, a… => k_ a…                     -- the loop is over: continue after it
+//	  | x :: rest_, i, a… => ⟦body⟧             -- falling off the body / `continue` = f.loopN … rest_ (i + 1) a…,
+//	                                            -- `break` = k_ a…, `return r` = some r, a panic = none
+//
+// where a… are the variables declared outside the loop that the body assigns (the loop-carried
+// state) and `captured` the other locals the body reads.  The statements after the loop are the
+// continuation `k_`.  The slice is evaluated once, and the body must not assign to it.
+func (t *tr) rangeStmt(s *ast.RangeStmt, rest func() string) string {
+	if s.Tok != token.DEFINE && (s.Key != nil || s.Value != nil) {
+		dieT("gotolean: range with assignment to existing variables at %s", pos(s))
+	}
+	xs := t.ex(s.X)
+	if xs.ty.K != "list" {
+		dieT("gotolean: range over a non-slice at %s", pos(s))
+	}
+	t.loopN++
+	name := fmt.Sprintf("%s.loop%d", t.cur.spec.leanName, t.loopN)
+	carried := t.assigned(s.Body.List)
+	isCarried := map[string]bool{}
+	for _, n := range carried {
+		isCarried[n] = true
+	}
+	rootOf := func(e ast.Expr) string {
+		for {
+			switch x := e.(type) {
+			case *ast.SelectorExpr:
+				e = x.X
+			case *ast.StarExpr:
+				e = x.X
+			case *ast.ParenExpr:
+				e = x.X
+			case *ast.IndexExpr:
+				e = x.X
+			case *ast.Ident:
+				return x.Name
+			default:
+				return ""
+			}
+		}
+	}
+	if r := rootOf(s.X); r != "" && isCarried[r] {
+		dieT("gotolean: the loop at %s assigns to the slice it ranges over", pos(s))
+	}
+	ss := t.slots(carried)
+	for _, sl := range ss {
+		if sl.ty.K == "ptr" || sl.viaAlias {
+			dieT("gotolean: the loop at %s assigns through the pointer %s", pos(s), sl.goName)
+		}
+	}
+	// captured locals: every other local the body mentions, in a fixed order
+	loopVar := map[string]bool{}
+	for _, e := range []ast.Expr{s.Key, s.Value} {
+		if id, ok := e.(*ast.Ident); ok {
+			loopVar[id.Name] = true
+		}
+	}
+	seen := map[string]bool{}
+	var captured []string
+	ast.Inspect(s.Body, func(m ast.Node) bool {
+		switch y := m.(type) {
+		case *ast.SelectorExpr:
+			ast.Inspect(y.X, func(k ast.Node) bool {
+				if id, ok := k.(*ast.Ident); ok {
+					if _, ok := t.lookup(id.Name); ok && !isCarried[id.Name] && !loopVar[id.Name] && !seen[id.Name] {
+						seen[id.Name] = true
+						captured = append(captured, id.Name)
+					}
+				}
+				return true
+			})
+			return false
+		case *ast.Ident:
+			if _, ok := t.lookup(y.Name); ok && !isCarried[y.Name] && !loopVar[y.Name] && !seen[y.Name] {
+				seen[y.Name] = true
+				captured = append(captured, y.Name)
+			}
+		}
+		return true
+	})
+	sort.Strings(captured)
+	var capParams, capArgs []string
+	for _, sl := range t.slots(captured) {
+		capParams = append(capParams, "("+sl.lean+" : "+sl.ty.lean()+")")
+		capArgs = append(capArgs, sl.lean)
+	}
+	if t.cur.spec.ptrEq != "" {
+		capParams = append(capParams, "("+t.cur.spec.ptrEq+" : Bool)")
+		capArgs = append(capArgs, t.cur.spec.ptrEq)
+	}
+	var accTys []string
+	for _, sl := range ss {
+		accTys = append(accTys, sl.ty.lean())
+	}
+	kTy := "Unit"
+	if len(ss) > 0 {
+		kTy = strings.Join(accTys, " → ")
+	}
+	var rts []string
+	for _, r := range t.cur.results {
+		rts = append(rts, r.lean())
+	}
+	rt := "Option (" + strings.Join(rts, " × ") + ")"
+
+	// the body, translated in its own scope
+	t.push()
+	idx := ""
+	if id, ok := s.Key.(*ast.Ident); ok && id.Name != "_" {
+		idx = t.declare(id.Name, tInt())
+	} else {
+		idx = t.tmp("i")
+	}
+	elem := "_"
+	if id, ok := s.Value.(*ast.Ident); ok && id.Name != "_" {
+		elem = t.declare(id.Name, *xs.ty.E)
+	}
+	tail := t.tmp("rest")
+	savedNil := t.needsNil
+	t.needsNil = false
+	const nilMark = "\x01nilSlice\x01" // resolved once the body is known to need the parameter or not
+	callSelf := func(extra string) string {
+		return name + " " + strings.Join(append(append([]string{}, capArgs...), nilMark+"k_"), " ") + " " + extra
+	}
+	accVals := func() string {
+		if len(ss) == 0 {
+			return ""
+		}
+		return " " + strings.Join(t.slotValues(ss), " ")
+	}
+	callK := func() string {
+		if len(ss) == 0 {
+			return "k_ ()"
+		}
+		return "k_" + accVals()
+	}
+	next := func() string { return callSelf(tail + " (" + idx + " + 1)" + accVals()) }
+	t.loops = append(t.loops, loopCtx{cont: next, brk: callK})
+	outer := t.aux
+	t.aux = nil
+	nowBefore := t.nowN
+	body := t.block(s.Body.List, next)
+	if t.nowN != nowBefore {
+		dieT("gotolean: the loop at %s reads the wall clock", pos(s))
+	}
+	inner := t.aux
+	t.aux = outer
+	t.loops = t.loops[:len(t.loops)-1]
+	bodyNil := t.needsNil
+	t.needsNil = savedNil || bodyNil
+	t.pop()
+	if bodyNil {
+		capParams = append(capParams, "(nilSlice : Bool)")
+		capArgs = append(capArgs, "nilSlice")
+		body = strings.ReplaceAll(body, nilMark, "nilSlice ")
+	} else {
+		body = strings.ReplaceAll(body, nilMark, "")
+	}
+	accPat := ""
+	for _, sl := range ss {
+		accPat += ", " + sl.lean
+	}
+	var sb strings.Builder
+	fmt.Fprintf(&sb, "/-- the `range` loop of `%s` at %s -/\n", t.cur.spec.goName, relPos(s))
+	sig := strings.Join(capParams, " ")
+	if sig != "" {
+		sig += " "
+	}
+	fmt.Fprintf(&sb, "def %s %s(k_ : %s → %s) : %s → Int%s → %s\n", name, sig, kTy, rt, xs.ty.lean(),
+		func() string {
+			o := ""
+			for _, a := range accTys {
+				o += " → " + a
+			}
+			return o
+		}(), rt)
+	fmt.Fprintf(&sb, "  | [], _%s =>\n    %s\n", accPat, callK())
+	fmt.Fprintf(&sb, "  | %s :: %s, %s%s =>\n", elem, tail, idx, accPat)
+	for _, l := range strings.Split(body, "\n") {
+		sb.WriteString("    " + l + "\n")
+	}
+	t.aux = append(t.aux, inner...)
+	t.aux = append(t.aux, sb.String())
+
+	// the call: the statements after the loop are the continuation
+	_, params := slotPattern(ss)
+	k := t.tmp("k")
+	r := rest()
+	call := name + " " + strings.Join(capArgs, " ")
+	call = strings.TrimSpace(call) + " " + k + " " + xs.term + " 0" + func() string {
+		o := ""
+		for _, sl := range ss {
+			o += " " + sl.lean
+		}
+		return o
+	}()
+	return wrap(xs.binds, "let "+k+" := (fun "+params+" =>\n"+r+")\n"+call)
+}
+
+func relPos(n ast.Node) string {
+	p := fset.Position(n.Pos())
+	return fmt.Sprintf("line %d", p.Line)
 }
 
 func (t *tr) assign(s *ast.AssignStmt, rest func() string) string {
@@ -978,6 +1567,19 @@ func (t *tr) assign(s *ast.AssignStmt, rest func() string) string {
 	if len(s.Lhs) == 2 && len(s.Rhs) == 1 {
 		// v, ok := m[k]
 		if ix, ok := s.Rhs[0].(*ast.IndexExpr); ok {
+			if id, ok := ix.X.(*ast.Ident); ok {
+				if _, isLocal := t.lookup(id.Name); !isLocal {
+					if _, isSet := t.sets[id.Name]; isSet {
+						// _, found := set[k] on a package-level map[string]struct{}
+						if l0, ok := s.Lhs[0].(*ast.Ident); !ok || l0.Name != "_" {
+							dieT("gotolean: the value of a set entry is used at %s", pos(s))
+						}
+						k := t.ex(ix.Index)
+						b := bindName(s.Lhs[1], tBool())
+						return wrap(k.binds, "let "+b+" : Bool := List.contains "+id.Name+" "+k.term+"\n"+rest())
+					}
+				}
+			}
 			m, k := t.ex(ix.X), t.ex(ix.Index)
 			if m.ty.K != "smap" {
 				dieT("gotolean: comma-ok on a non-map at %s", pos(s))
@@ -993,7 +1595,7 @@ func (t *tr) assign(s *ast.AssignStmt, rest func() string) string {
 		}
 		v := t.ex(c)
 		var tys []Ty
-		if fi, ok := t.fns[calleeBase(c)]; ok {
+		if fi, ok := t.fn(calleeBase(c), calleeBase(c) != calleeName(c)); ok {
 			tys = fi.results
 		} else if calleeName(c) == "intstrutil.GetValueFromIntOrPercent" {
 			tys = []Ty{tInt(), tPtr(tStr())}
@@ -1087,8 +1689,8 @@ func (t *tr) ifStmt(s *ast.IfStmt, rest func() string) string {
 		case !anyRet:
 			all := append(append([]ast.Stmt{}, s.Body.List...), elseList...)
 			vars := t.assigned(all)
-			tup, _ := t.tuple(vars)
-			pat := tup
+			ss := t.slots(vars)
+			pat, _ := slotPattern(ss)
 			if len(vars) == 0 {
 				pat = "_"
 			}
@@ -1100,40 +1702,37 @@ func (t *tr) ifStmt(s *ast.IfStmt, rest func() string) string {
 				}
 				return th, el
 			}
-			th, el := gen(func() string { return "some " + tup })
+			th, el := gen(func() string { return "some " + t.slotTuple(ss) })
 			if len(vars) > 0 && !strings.Contains(th, "Option.bind") && !strings.Contains(el, "Option.bind") {
 				// nothing can panic inside: a plain conditional value
-				th, el = gen(func() string { return tup })
+				th, el = gen(func() string { return t.slotTuple(ss) })
+				t.slotsJoined(ss)
 				return wrap(c.binds, "let "+pat+" := if "+c.term+" then\n"+th+"\nelse\n"+el+"\n"+rest())
 			}
+			t.slotsJoined(ss)
 			return wrap(c.binds, "Option.bind (if "+c.term+" then\n"+th+"\nelse\n"+el+") fun "+pat+" =>\n"+rest())
 		default:
 			// the body both returns and falls through: join through a local continuation
 			all := append(append([]ast.Stmt{}, s.Body.List...), elseList...)
 			vars := t.assigned(all)
-			_, params := t.tuple(vars)
+			ss := t.slots(vars)
+			_, params := slotPattern(ss)
 			k := t.tmp("k")
 			callK := func() string {
 				if len(vars) == 0 {
 					return k + " ()"
 				}
-				var as []string
-				for _, n := range vars {
-					f, _ := t.lookup(n)
-					if f.ty.K == "ptr" {
-						as = append(as, t.aliasOf(n))
-					} else {
-						as = append(as, f.lean)
-					}
-				}
-				return k + " " + strings.Join(as, " ")
+				return k + " " + strings.Join(t.slotValues(ss), " ")
 			}
 			th := branch(s.Body.List, callK)
 			el := callK()
 			if hasElse {
 				el = branch(elseList, callK)
 			}
+			t.push()
+			t.slotsJoined(ss)
 			r := rest()
+			t.pop()
 			return wrap(c.binds, "let "+k+" := fun "+params+" =>\n"+r+"\nif "+c.term+" then\n"+th+"\nelse\n"+el)
 		}
 	}
@@ -1152,6 +1751,8 @@ func (t *tr) ifStmt(s *ast.IfStmt, rest func() string) string {
 func (t *tr) loadConsts(repo string) {
 	t.consts = map[string]val{}
 	files, _ := filepath.Glob(filepath.Join(repo, "api/v1alpha1/*.go"))
+	files = append(files, filepath.Join(repo, "controllers/extendeddaemonsetreplicaset/strategy/type.go"),
+		filepath.Join(repo, "pkg/controller/utils/affinity/affinity.go"))
 	for _, p := range files {
 		if strings.HasSuffix(p, "_test.go") || strings.Contains(p, "zz_generated") {
 			continue
@@ -1204,6 +1805,55 @@ func (t *tr) loadConsts(repo string) {
 	}
 }
 
+// stringSets collects the package-level `var X = map[string]struct{}{"a": {}, …}` of a file.
+func stringSets(f *ast.File, into map[string][]string) []string {
+	var names []string
+	for _, d := range f.Decls {
+		gd, ok := d.(*ast.GenDecl)
+		if !ok || gd.Tok != token.VAR {
+			continue
+		}
+		for _, sp := range gd.Specs {
+			vs := sp.(*ast.ValueSpec)
+			if len(vs.Names) != 1 || len(vs.Values) != 1 {
+				continue
+			}
+			cl, ok := vs.Values[0].(*ast.CompositeLit)
+			if !ok {
+				continue
+			}
+			mt, ok := cl.Type.(*ast.MapType)
+			if !ok {
+				continue
+			}
+			if st, ok := mt.Value.(*ast.StructType); !ok || len(st.Fields.List) != 0 {
+				continue
+			}
+			var keys []string
+			good := true
+			for _, el := range cl.Elts {
+				kv, ok := el.(*ast.KeyValueExpr)
+				if !ok {
+					good = false
+					break
+				}
+				bl, ok := kv.Key.(*ast.BasicLit)
+				if !ok || bl.Kind != token.STRING {
+					good = false
+					break
+				}
+				k, _ := strconv.Unquote(bl.Value)
+				keys = append(keys, k)
+			}
+			if good {
+				into[vs.Names[0].Name] = keys
+				names = append(names, vs.Names[0].Name)
+			}
+		}
+	}
+	return names
+}
+
 func (t *tr) translate(fi *fnInfo) string {
 	t.cur = fi
 	t.env = nil
@@ -1229,11 +1879,30 @@ func (t *tr) translate(fi *fnInfo) string {
 		rts = append(rts, r.lean())
 	}
 	rt := strings.Join(rts, " × ")
+	t.aux = nil
+	t.loopN = 0
+	t.loops = nil
+	t.needsNil = false
+	t.nowN = 0
 	body := t.block(fi.decl.Body.List, func() string {
+		if fi.void {
+			return t.retVoid(fi.decl)
+		}
 		dieT("gotolean: %s can fall off its end", fi.spec.goName)
 		return ""
 	})
+	if t.needsNil {
+		fi.needsNil = true
+		ps = append(ps, "(nilSlice : Bool)")
+	}
+	fi.nowN = t.nowN
+	for i := 1; i <= t.nowN; i++ {
+		ps = append(ps, fmt.Sprintf("(wallNow%d : Int)", i))
+	}
 	var sb strings.Builder
+	for _, a := range t.aux {
+		sb.WriteString(a + "\n")
+	}
 	fmt.Fprintf(&sb, "/-- translated from `%s` (%s) -/\n", fi.spec.goName, fi.spec.file)
 	fmt.Fprintf(&sb, "def %s %s : Option (%s) :=\n", fi.spec.leanName, strings.Join(ps, " "), rt)
 	for _, l := range strings.Split(body, "\n") {
@@ -1265,9 +1934,47 @@ var decisionFns = []fnSpec{
 	{group: "Defaults", file: "api/v1alpha1/extendeddaemonset_validate.go", goName: "ValidateExtendedDaemonSetSpec", leanName: "validateSpec"},
 	{group: "SlowStart", file: "controllers/extendeddaemonsetreplicaset/strategy/rollingupdate.go", goName: "getRollingUpdateStartTime", leanName: "getRollingUpdateStartTime"},
 	{group: "SlowStart", file: "controllers/extendeddaemonsetreplicaset/strategy/rollingupdate.go", goName: "calculateMaxCreation", leanName: "calculateMaxCreation"},
+	// group Conds: the condition-list helpers of both `conditions` packages, the role of a replica set,
+	// and the pod helpers of pkg/controller/utils/pod (loops over slices)
+	{group: "Conds", file: ersCondFile, goName: "NewExtendedDaemonSetReplicaSetCondition", leanName: "newERSCondition"},
+	{group: "Conds", file: ersCondFile, goName: "GetIndexForConditionType", leanName: "getIndexForConditionType"},
+	{group: "Conds", file: ersCondFile, goName: "GetExtendedDaemonSetReplicaSetStatusCondition", leanName: "getERSCondition"},
+	{group: "Conds", file: ersCondFile, goName: "IsConditionTrue", leanName: "isERSConditionTrue"},
+	{group: "Conds", file: ersCondFile, goName: "UpdateExtendedDaemonSetReplicaSetStatusCondition", leanName: "updateERSCondition"},
+	{group: "Conds", file: ersCondFile, goName: "UpdateErrorCondition", leanName: "updateERSErrorCondition"},
+	{group: "Conds", file: edsCondFile, goName: "NewExtendedDaemonSetCondition", leanName: "newEDSCondition"},
+	{group: "Conds", file: edsCondFile, goName: "getIndexForConditionType", leanName: "getEDSIndexForConditionType"},
+	{group: "Conds", file: edsCondFile, goName: "GetExtendedDaemonSetStatusCondition", leanName: "getEDSCondition"},
+	{group: "Conds", file: edsCondFile, goName: "IsConditionTrue", leanName: "isEDSConditionTrue"},
+	{group: "Conds", file: edsCondFile, goName: "UpdateExtendedDaemonSetStatusCondition", leanName: "updateEDSCondition"},
+	{group: "Conds", file: edsCondFile, goName: "UpdateErrorCondition", leanName: "updateEDSErrorCondition"},
+	{group: "Conds", file: "pkg/controller/utils/affinity/affinity.go", goName: "GetNodeNameFromAffinity", leanName: "getNodeNameFromAffinity"},
+	{group: "Conds", file: podFile, goName: "IsPodScheduled", leanName: "isPodScheduled"},
+	{group: "Conds", file: podFile, goName: "HasPodSchedulerIssue", leanName: "hasPodSchedulerIssue"},
+	{group: "Conds", file: podFile, goName: "GetPodConditionFromList", leanName: "getPodConditionFromList"},
+	{group: "Conds", file: podFile, goName: "GetPodCondition", leanName: "getPodCondition"},
+	{group: "Conds", file: podFile, goName: "GetPodReadyCondition", leanName: "getPodReadyCondition"},
+	{group: "Conds", file: podFile, goName: "IsPodReadyConditionTrue", leanName: "isPodReadyConditionTrue"},
+	{group: "Conds", file: podFile, goName: "IsPodReady", leanName: "isPodReady"},
+	{group: "Conds", file: podFile, goName: "IsPodAvailable", leanName: "isPodAvailable"},
+	{group: "Conds", file: podFile, goName: "containerStatusList", leanName: "containerStatusList"},
+	{group: "Conds", file: podFile, goName: "HighestRestartCount", leanName: "highestRestartCount"},
+	{group: "Conds", file: podFile, goName: "MostRecentRestart", leanName: "mostRecentRestart"},
+	{group: "Conds", file: podFile, goName: "IsCannotStartReason", leanName: "isCannotStartReason"},
+	{group: "Conds", file: podFile, goName: "convertReasonToEDSStatusReason", leanName: "convertReasonToEDSStatusReason"},
+	{group: "Conds", file: podFile, goName: "CannotStart", leanName: "cannotStart"},
+	{group: "Conds", file: podFile, goName: "PendingCreate", leanName: "pendingCreate"},
+	{group: "Conds", file: "controllers/extendeddaemonsetreplicaset/controller.go", goName: "retrieveReplicaSetStatus", leanName: "retrieveReplicaSetStatus"},
+	{group: "Conds", file: "controllers/extendeddaemonset/controller.go", goName: "isCanaryActive", leanName: "isCanaryActive"},
 }
 
-var decisionGroups = []string{"Canary", "Cleanup", "Defaults", "SlowStart"}
+const (
+	ersCondFile = "controllers/extendeddaemonsetreplicaset/conditions/update.go"
+	edsCondFile = "controllers/extendeddaemonset/conditions/update.go"
+	podFile     = "pkg/controller/utils/pod/pod.go"
+)
+
+var decisionGroups = []string{"Canary", "Cleanup", "Defaults", "SlowStart", "Conds"}
 
 // genDecisions returns, per group, the content of EdsModel/Generated/Dec<group>.lean.  A group
 // the translator cannot express yields a file that does not compile (and says why), so that only
@@ -1297,9 +2004,10 @@ func genDecisionGroup(repo, group string) (content string) {
 		}
 	}()
 	initTables()
-	t := &tr{fns: map[string]*fnInfo{}}
+	t := &tr{fns: map[string]*fnInfo{}, sets: map[string][]string{}}
 	t.loadConsts(repo)
 	parsed := map[string]*ast.File{}
+	var setDefs []string
 	var order []*fnInfo
 	for _, sp := range decisionFns {
 		if sp.group != group {
@@ -1309,6 +2017,9 @@ func genDecisionGroup(repo, group string) (content string) {
 		if !ok {
 			f = parse(filepath.Join(repo, sp.file))
 			parsed[sp.file] = f
+			for _, n := range stringSets(f, t.sets) {
+				setDefs = append(setDefs, n)
+			}
 		}
 		var decl *ast.FuncDecl
 		for _, d := range f.Decls {
@@ -1331,6 +2042,13 @@ func genDecisionGroup(repo, group string) (content string) {
 				}
 			}
 		}
+		// no result and a pointer first parameter: the function is what it does to that pointee
+		if len(fi.results) == 0 && len(decl.Type.Params.List) > 0 {
+			if _, ok := decl.Type.Params.List[0].Type.(*ast.StarExpr); ok {
+				fi.void, fi.mutator = true, true
+				fi.results = []Ty{t.goType(decl.Type.Params.List[0].Type)}
+			}
+		}
 		// mutator: pointer first parameter, single pointer result, last statement `return <param0>`
 		if len(fi.results) == 1 && fi.results[0].K == "ptr" && len(decl.Type.Params.List) > 0 && len(decl.Body.List) > 0 {
 			if _, ok := decl.Type.Params.List[0].Type.(*ast.StarExpr); ok {
@@ -1342,11 +2060,18 @@ func genDecisionGroup(repo, group string) (content string) {
 				}
 			}
 		}
-		t.fns[sp.goName] = fi
+		t.fns[filepath.Dir(sp.file)+":"+sp.goName] = fi
 		order = append(order, fi)
 	}
 	var sb strings.Builder
 	sb.WriteString(header)
+	for _, n := range setDefs {
+		var qs []string
+		for _, k := range t.sets[n] {
+			qs = append(qs, strconv.Quote(k))
+		}
+		fmt.Fprintf(&sb, "/-- the keys of the package-level set `%s`, in source order -/\ndef %s : List String :=\n  [%s]\n\n", n, n, strings.Join(qs, ", "))
+	}
 	for _, fi := range order {
 		sb.WriteString(t.translate(fi))
 		sb.WriteString("\n")
